@@ -142,6 +142,10 @@ def mon_C03(st):
                 out.append(("cancel-callback-without-cancellation", t.cc[0][0], f"pool {pi} task {t.tid}"))
             if t.badtag:
                 out.append(("callback-id-differs-from-task-name", t.first_seen, f"pool {pi} task {t.tid}"))
+            for (j, kind) in t.cdone + t.edone:
+                if kind == "k" and not ps.has_hooks:
+                    # a task inside a callback counts as cancelled / ended: nothing the pool offers may cancel it again
+                    out.append(("callback-cancelled-midway", j, f"pool {pi} task {t.tid}"))
             if qj is not None and t.req is not None and t.req.spec is not None and t.first_seen <= qj:
                 sp = t.req.spec
                 if sp["ecb"] != "n" and len(t.ec) != 1:
@@ -332,6 +336,9 @@ def mon_C06(st):
         for t in ps.tasks.values():
             if t.X is not None and t.tid not in named.get(pi, set()):
                 out.append(("cancelled-a-task-not-named", t.X, f"pool {pi} task {t.tid}"))
+            elif t.cc and t.tid not in named.get(pi, set()):
+                # the cancel callback only runs for a task that was cancelled (also one cancelled before its first step)
+                out.append(("cancelled-a-task-not-named", t.cc[0][0], f"pool {pi} task {t.tid} (cancel callback ran)"))
     return out
 
 
@@ -416,6 +423,10 @@ def mon_C08(st):
                          and (t.req is None or t.req.step < j0)]
                 if early:
                     out.append(("returned-while-tasks-run", jc, f"pool {pi}: workers of tasks {early} still running"))
+                incb = [tid for tid in st.in_callback(pi, jc)
+                        if ps.tasks[tid].req is None or ps.tasks[tid].req.step < j0]
+                if incb:
+                    out.append(("returned-while-callbacks-run", jc, f"pool {pi}: tasks {incb} are still inside a callback"))
                 if po["n"] or po["c"] or po["e"]:
                     out.append(("closed-pool-holds-tasks", jc, f"pool {pi}: {po['n']}/{po['c']}/{po['e']}"))
                 if not po["z"]:
@@ -470,6 +481,14 @@ GEN_PREFIX = {"apply": "apply", "0": "map", "1": "starmap", "2": "doublestarmap"
 
 def mon_C09(st):
     out = []
+    # the step at which a gather_and_close() of the pool returned normally: from then on the pool is closed
+    gac_done = {}
+    for pi, ps in enumerate(st.pools):
+        for a, (kind, re_, j0) in enumerate(ps.apis):
+            if kind == "gac":
+                jc, outcome = api_completion(st, pi, a)
+                if jc is not None and outcome == "ok":
+                    gac_done[pi] = min(gac_done.get(pi, jc), jc)
     for j, toks in enumerate(st.toks):
         o = st.obs[j]
         if o is None or not toks:
@@ -502,7 +521,7 @@ def mon_C09(st):
                 coro, g, nc = True, "-", 1
             if not coro:
                 exp = "err:NotCoroutineFunction"
-            elif pp["z"]:
+            elif pp["z"] or (pi in gac_done and gac_done[pi] < j):
                 exp = "err:PoolIsClosed"
             elif pp["l"]:
                 exp = "err:PoolIsLocked"
@@ -673,6 +692,13 @@ def mon_C12(st, loopexc=None):
                 out.append((f"{kind}-raised-foreign-exception", jc, f"pool {pi}: {outcome}"))
             elif outcome == "exc:Boom" and not raising_anywhere(st, ps):
                 out.append((f"{kind}-raised-though-nothing-failed", jc, f"pool {pi}"))
+            elif (outcome == "ok" and not re_ and kind == "flush" and not ps.has_hooks
+                  and not any(b != a and k2 != "until_closed" and jb <= jc for b, (k2, _, jb) in enumerate(ps.apis))):
+                # the first collecting call of the pool: a task whose coroutine had raised before it is among the
+                # tasks it waits for, so that exception is what it must raise
+                failed = [t.tid for t in ps.tasks.values() if t.E is not None and t.E < j0 and finished_before(t, j0 - 1)]
+                if failed:
+                    out.append(("flush-swallowed-a-task-exception", jc, f"pool {pi}: tasks {failed} had raised"))
     for name in (loopexc or []):
         if name not in ("Boom",):
             out.append(("foreign-exception-in-a-pool-task", len(st.toks) - 1, name))
@@ -758,6 +784,8 @@ def mon_C14(st):
                 out.append(("stop-not-lifo", j, f"pool {pi}: returned {ids}, running were {approx}"))
         for i in ids:
             t = ps.tasks.get(i)
+            if t is not None and any(x[0] < j for x in t.cc):
+                out.append(("stop-returned-a-task-already-cancelled", j, f"pool {pi} task {i} was in its cancel callback"))
             if (t is not None and qj is not None and j <= qj and ps.spec["mode"] == "g" and t.S is not None and t.S < j
                     and not finished_before(t, j) and t.X is None and not any(x[0] <= j for x in t.cc)):
                 out.append(("stopped-task-not-cancelled", j, f"pool {pi} task {i}"))
